@@ -17,7 +17,8 @@ TITLE = "numpy functions on Arrays return dimensionally correct units or refuse"
 RULE = (
     "exhaustive over the catalogue (unchanged-unit reductions/selections, unit-preserving multi-operand "
     "functions, transformed: multiply divide true_divide sqrt square cbrt power reciprocal, predicates) x "
-    "unit assignment (same, compatible-different, incompatible, plain ndarray/number mixed in) x dtype "
+    "unit assignment (same, compatible-different, incompatible, plain ndarray/number mixed in; the second "
+    "operand is a pint Quantity instead of an Array in 1 of 5 cases) x dtype "
     "(float64/32, int64/32) x keyword form (none, axis=, keepdims=, out=) on a small fixed value corpus, "
     "followed by random value sets/shapes drawn from rng(seed, C10, i).  Non-trivial = >=2 operands with "
     "different units, or a non-float64 operand, or a keyword form; distinct = distinct (function, form, "
@@ -63,12 +64,14 @@ LOGIC = {"logical_and": np.logical_and, "logical_or": np.logical_or, "logical_xo
          "logical_not": np.logical_not}
 
 ASSIGN = ["same", "compatible", "incompatible", "plain-ndarray", "plain-number"]
+QUANTITY_OPERANDS = [0]
 
 
 def plan(tier):
     return {"shards": 16, "timeout": 900 if tier == "quick" else 4 * 3600,
             "required_monitors": ["keep1", "keepN", "transformed", "predicate", "kw-axis", "kw-out",
-                                  "must-raise-or-convert"]}
+                                  "must-raise-or-convert"],
+            "required_tags": ["quantity-operand"]}
 
 
 def cases(ctx):
@@ -207,8 +210,12 @@ def run_case(case, ctx, res):
     dt = case.get("dtype", "float64")
     sig = {"f": name, "cls": cls, "form": form, "asg": case.get("asg"), "dt": dt}
     res.digest_src = sig
+    q0 = QUANTITY_OPERANDS[0]
     with np.errstate(all="ignore"):
         globals()["_" + cls](osy, rng, res, sig, name, form, dt, case)
+    if QUANTITY_OPERANDS[0] > q0:
+        res.tag("quantity-operand")
+        sig["second_operand"] = "pint Quantity"
     if res.sample is None:
         res.sample = dict(sig)
     res.nontrivial = dt != "float64" or form != "plain" or case.get("asg") in ("compatible", "incompatible")
@@ -268,6 +275,9 @@ def _operands(osy, rng, asg, dt, shape, nonzero=False):
     else:
         v2 = gen.draw_values(rng, shape, dt2, small=True, nonzero=True)
         b = v2.copy() if asg == "plain-ndarray" else osy.Array(values=v2.copy(), unit=u2, name="b")
+        if asg != "plain-ndarray" and rng.random() < 0.2:
+            b = v2.copy() * osy.units(u2)         # a pint Quantity also carries a unit
+            QUANTITY_OPERANDS[0] += 1
     return u1, u2, dt2, v1, a, v2, b
 
 
